@@ -1,0 +1,9 @@
+//go:build !verif
+
+package modules
+
+func verifTaskNop() {}
+
+func verifTaskOp(point string, t *Task) func() { return verifTaskNop }
+
+func verifTaskEnd(point string, t *Task) {}
